@@ -174,7 +174,7 @@ example :
     receiver or assigned value of any enclosing expression in parentheses changes nothing — not the value, not the
     effects, not whether and how it fails — in every scope and store (from some step budget on); and so for the
     statements that print it, evaluate it, declare with it, return it or branch on it.
-    (Partial: holes inside object-literal initialisers, loop headers and function bodies are tested end to end only.) -/
+    (Object-literal initialisers, loop headers and bodies: `redundant_parentheses_whole_program` below.) -/
 theorem redundant_parentheses_anywhere_in_an_expression (P : Platform) (C : Ctx) (e : Expr) (l : Nat) :
     EvEq P (C.plug (.grouping e l)) (C.plug e) ∧
     EvS P (.print (C.plug (.grouping e l))) (.print (C.plug e)) ∧
@@ -192,8 +192,8 @@ example (P : Platform) : EvEq P (.call (.ident "f".toList 1) 1 [.literal (.num (
 
 /-- (e) **redundant parentheses, whole programs**: let `prog'` be `prog` with parentheses inserted around any
     sub-expressions anywhere in its top-level statements, blocks, branches, loop headers (initialiser, test,
-    increment) and loop bodies, at any depth — anywhere except inside the bodies of the functions it declares and
-    inside object-literal initialisers (`ParenSs`).  Then, from some step budget on, interpreting `prog'` ends in
+    increment), loop bodies and object-literal initialisers, at any depth — anywhere except inside the bodies of
+    the functions it declares (`ParenSs`).  Then, from some step budget on, interpreting `prog'` ends in
     exactly the state interpreting `prog` ends in: the same stdout, the same diagnostics in the same order, the same
     flags, the same unread input — or the same abnormal end.  (Loops are handled by induction on the budget at which
     the loop answers: `Lemmas/InterchangeLoop`.) -/
